@@ -1,9 +1,187 @@
 -------------------------- MODULE Known_SortMerge --------------------------
 (* Named deviation actions for the recorded known findings of property C11        *)
-(* (see /verif/known_findings.json).  Filled in below.                            *)
+(* (see /verif/known_findings.json).  A deviation is enabled only for the listed  *)
+(* subject (family / configuration fields of the reset event), the listed          *)
+(* operation and its semantic trigger, and only when the strict contract does NOT  *)
+(* accept the event (a repaired tree never takes a deviation).  The action         *)
+(* describes the recorded wrong behaviour as exactly as it can be stated from the  *)
+(* logged input; any other wrong answer stays a VIOLATION.  The contract has no    *)
+(* state, so the actions are plain predicates on the event.                        *)
 EXTENDS SetOps, TLC
 
-KnownIds == {}
-DevApplies(id, e, subj) == FALSE
-KnownDeviation(id, e, subj) == FALSE
+KnownIds == {"C11-KF1", "C11-KF2", "C11-KF3", "C11-KF4", "C11-KF5", "C11-KF6", "C11-KF7", "C11-KF8", "C11-KF9"}
+
+(* ---------------------------------------------------------------------------------------- *)
+(* C11-KF1  RadixSort::sort_u32 / Algorithm::execute: inputs of at most                       *)
+(* use_counting_sort_threshold elements go to counting_sort_u32, which allocates max+1         *)
+(* counters: 2 GiB for a value of 2^28, 32 GiB for u32::MAX - the process aborts (allocation   *)
+(* failure under the 6 GiB address-space limit of the harness child).  Trigger: some element   *)
+(* >= 2^28 (hi28 is the same projection for inputs too long to be logged).                     *)
+G1(e, subj) ==
+    /\ subj.fam = "radix" /\ subj.elem = "u32" /\ subj.cthr > 0
+    /\ e.op = "crash" /\ e.in = "sort" /\ ~e.timeout /\ e.sig = 6
+    /\ e.len >= 1 /\ e.len <= subj.cthr
+    /\ IF Len(e.input) > 0
+       THEN \E i \in 1..Len(e.input) : IF e.kt = "limbs" THEN e.input[i][3] >= 4096 ELSE e.input[i] >= 268435456
+       ELSE e.hi28
+KF1(e, subj) == G1(e, subj)
+
+(* ---------------------------------------------------------------------------------------- *)
+(* C11-KF2  KeyValueRadixSort::sort_by_key looks the value up by the FIRST position of the     *)
+(* key: every pair with a duplicated key comes back with the value of the first one.           *)
+HasDupKeys(in) == \E i, j \in 1..Len(in) : i # j /\ in[i][1] = in[j][1]
+FirstValue(in, k) == in[CHOOSE i \in 1..Len(in) : in[i][1] = k /\ \A j \in 1..(i - 1) : in[j][1] # k][2]
+G2(e, subj) ==
+    /\ subj.fam = "kv"
+    /\ \/ /\ e.op = "sort_kv" /\ e.ok /\ HasDupKeys(e.in)
+          /\ ~ SortKvOK(e.kt, e.ord, e.ok, e.stable, e.in, e.out)
+       \/ /\ e.op = "sort_big" /\ e.what = "pairs" /\ e.ok /\ e.dups
+          /\ ~ BigOK(e.ok, e.len_in, e.len_out, e.bag_in, e.bag_out, e.inv)
+KF2(e, subj) ==
+    /\ G2(e, subj)
+    /\ \/ /\ e.op = "sort_kv"
+          /\ IsSortedPermutation(e.kt, "asc", Keys(e.in), Keys(e.out))
+          /\ \A i \in 1..Len(e.out) : e.out[i][2] = FirstValue(e.in, e.out[i][1])
+       \/ /\ e.op = "sort_big"
+          /\ e.len_out = e.len_in /\ e.inv = 0
+
+(* ---------------------------------------------------------------------------------------- *)
+(* C11-KF3  AdvancedRadixSort, LSD strategy with use_simd on AVX2+BMI2 hosts: the digit        *)
+(* counting of inputs of >= 16 elements truncates every key to its low 32 bits                 *)
+(* (count_digits_avx2_bmi2), the distribution uses the full key: with a key >= 2^32 the         *)
+(* bucket offsets are wrong and the distribution indexes past the buffer (panic).              *)
+G3(e, subj) ==
+    /\ subj.fam = "adv" /\ subj.simd /\ subj.strategy \in {"lsd", "auto"}
+    /\ e.op = "panic" /\ e.in = "sort" /\ e.kind = "oob"
+    /\ e.hi32 /\ e.len >= 16
+KF3(e, subj) == G3(e, subj)
+
+(* ---------------------------------------------------------------------------------------- *)
+(* C11-KF4  AdvancedRadixSort<RadixString> (AdvancedStringRadixSort): insertion sort, the      *)
+(* "tim" sort and the small-bucket fall-back of the MSD sort compare extract_key() = the first  *)
+(* 8 bytes, zero padded; strings that agree there (a common 8-byte prefix, or differing only    *)
+(* in trailing zero bytes) are left in arbitrary relative order.                                *)
+K8(s) == [ i \in 1..8 |-> IF i <= Len(s) THEN s[i] ELSE 0 ]
+Key8Leq(a, b) == K8(a) = K8(b) \/ BLess(K8(a), K8(b))
+Key8Collision(in) == \E i, j \in 1..Len(in) : in[i] # in[j] /\ K8(in[i]) = K8(in[j])
+G4(e, subj) ==
+    /\ subj.fam = "adv" /\ subj.elem = "bytes"
+    /\ \/ /\ e.op = "sort" /\ e.ok /\ e.kt = "bytes" /\ Key8Collision(e.in)
+          /\ ~ SortOK(e.kt, e.ord, e.ok, e.in, e.out)
+       \/ /\ e.op = "sort_big" /\ e.ok /\ e.embdup
+          /\ ~ BigOK(e.ok, e.len_in, e.len_out, e.bag_in, e.bag_out, e.inv)
+KF4(e, subj) ==
+    /\ G4(e, subj)
+    /\ \/ /\ e.op = "sort"
+          /\ IsPermutation(e.in, e.out)
+          /\ \A i \in 1..(Len(e.out) - 1) : Key8Leq(e.out[i], e.out[i + 1])
+       \/ /\ e.op = "sort_big"
+          /\ e.len_out = e.len_in /\ e.bag_out = e.bag_in
+
+(* ---------------------------------------------------------------------------------------- *)
+(* C11-KF5  CacheObliviousSort::funnel_sort_recursive passes floor(sqrt(k)) down as the fan-    *)
+(* out of the sub-problems; once it reaches 1 a sub-problem larger than small_threshold calls   *)
+(* itself on the same slice forever (stack overflow, the process aborts).  The trigger replays  *)
+(* the subdivision arithmetic of the code on the logged length and configuration.               *)
+ISqrt(q) == CHOOSE s \in 0..130 : s * s <= q /\ (s + 1) * (s + 1) > q
+FunnelWidth(subj, n) == Min2(Max2(ISqrt(Min2(subj.l2 \div subj.l2_line, 16384)), 2), Min2(n, 64))
+RECURSIVE Diverges(_, _, _)
+Diverges(n, k, thr) ==
+    IF n <= thr THEN FALSE
+    ELSE IF k <= 1 THEN TRUE
+    ELSE LET cs == n \div k
+             last == n - (k - 1) * cs
+             sk == ISqrt(k)
+         IN (cs > 0 /\ Diverges(cs, sk, thr)) \/ Diverges(last, sk, thr)
+TakesFunnel(subj, n) ==
+    IF subj.entry = "cache_oblivious_sort" THEN TRUE
+    ELSE IF n * 8 <= subj.l1 THEN FALSE
+    ELSE IF n * 8 <= subj.l3 THEN TRUE
+    ELSE n * subj.esize > subj.l2
+G5(e, subj) ==
+    /\ subj.fam = "co"
+    /\ e.op = "crash" /\ e.in = "sort" /\ ~e.timeout
+    /\ TakesFunnel(subj, e.len)
+    /\ Diverges(e.len, FunnelWidth(subj, e.len), subj.small_threshold)
+KF5(e, subj) == G5(e, subj)
+
+(* ---------------------------------------------------------------------------------------- *)
+(* C11-KF6  SetOperations::intersection, general variant (bit mask optimisation off, or more   *)
+(* ways than bit_mask_threshold): an element is emitted when its TOTAL number of occurrences    *)
+(* equals the number of ways, whichever ways they come from - wrong as soon as a way holds an   *)
+(* element twice.                                                                               *)
+GeneralPath(subj, ways) == (~ subj.bit_mask) \/ ways > subj.bit_mask_threshold
+RunHasDup(runs) == \E w \in 1..Len(runs) : \E i \in 1..(Len(runs[w]) - 1) : runs[w][i] = runs[w][i + 1]
+GeneralInter(kt, runs) ==
+    LET f == Flatten(runs) IN SelectSeq(Unique(KMerge(kt, runs)), LAMBDA x : Count(f, x) = Len(runs))
+G6(e, subj) ==
+    /\ subj.fam = "ksets"
+    /\ e.op = "ksetop" /\ e.name = "k_inter" /\ e.ok
+    /\ GeneralPath(subj, Len(e.runs)) /\ RunHasDup(e.runs)
+    /\ ~ KSetOpOK(e.name, e.kt, e.ok, e.runs, e.out, e.m, e.r)
+KF6(e, subj) == G6(e, subj) /\ e.out = GeneralInter(e.kt, e.runs)
+
+(* ---------------------------------------------------------------------------------------- *)
+(* C11-KF7  SetOperations::intersection, bit mask variant with bit_mask_threshold > 32 and      *)
+(* more than 32 ways: the mask is a u32 and `1u32 << idx` wraps for idx >= 32, so way idx       *)
+(* stands in for way idx mod 32: an element is emitted when every residue class mod 32 has a    *)
+(* way heading it.                                                                              *)
+RECURSIVE KBitInterFrom(_, _, _)
+KBitInterFrom(kt, runs, p) ==
+    LET live == Live(runs, p) IN
+    IF live = {} THEN <<>>
+    ELSE LET w0 == CHOOSE w \in live : \A u \in live : KLeq(kt, HeadOf(runs, p, w), HeadOf(runs, p, u))
+             m == HeadOf(runs, p, w0)
+             at == { w \in live : HeadOf(runs, p, w) = m }
+             rest == KBitInterFrom(kt, runs, [ w \in 1..Len(runs) |-> IF w \in at THEN p[w] + 1 ELSE p[w] ])
+         IN IF { (w - 1) % 32 : w \in at } = 0..31 THEN <<m>> \o rest ELSE rest
+G7(e, subj) ==
+    /\ subj.fam = "ksets" /\ subj.bit_mask
+    /\ e.op = "ksetop" /\ e.name = "k_inter" /\ e.ok
+    /\ Len(e.runs) > 32 /\ Len(e.runs) <= subj.bit_mask_threshold
+    /\ ~ KSetOpOK(e.name, e.kt, e.ok, e.runs, e.out, e.m, e.r)
+KF7(e, subj) == G7(e, subj) /\ e.out = KBitInterFrom(e.kt, e.runs, Start(e.runs))
+
+(* ---------------------------------------------------------------------------------------- *)
+(* C11-KF8  ReplaceSelectSort with memory_buffer_size smaller than one element: the heap        *)
+(* capacity is 0, no run is written and sort() returns Ok(empty) for a non-empty input.         *)
+G8(e, subj) ==
+    /\ subj.fam = "rss" /\ subj.buf_items = 0
+    /\ e.op = "sort" /\ e.ok /\ Len(e.in) > 0 /\ e.out = <<>>
+KF8(e, subj) == G8(e, subj)
+
+(* ---------------------------------------------------------------------------------------- *)
+(* C11-KF9  ReplaceSelectSort::with_comparator: run generation pops its heap in T's natural     *)
+(* order (RunElement::cmp ignores the comparator) while run breaks and the final merge use the  *)
+(* comparator: with a comparator that is not the natural order, a buffer of >= 2 elements and   *)
+(* more input than the buffer holds, the runs are not sorted by the comparator and the merged   *)
+(* result is an unsorted permutation of the input.                                              *)
+G9(e, subj) ==
+    /\ subj.fam = "rss" /\ subj.cmp = "reversed" /\ subj.buf_items >= 2
+    /\ e.op = "sort" /\ e.ok /\ Len(e.in) > subj.buf_items
+    /\ ~ SortOK(e.kt, e.ord, e.ok, e.in, e.out)
+KF9(e, subj) == G9(e, subj) /\ IsPermutation(e.in, e.out)
+
+(* guard (predicate) and action of each deviation.  In KF mode a deviation whose guard holds *)
+(* REPLACES the contract action for that event.                                              *)
+DevApplies(id, e, subj) ==
+    \/ id = "C11-KF1" /\ G1(e, subj)
+    \/ id = "C11-KF2" /\ G2(e, subj)
+    \/ id = "C11-KF3" /\ G3(e, subj)
+    \/ id = "C11-KF4" /\ G4(e, subj)
+    \/ id = "C11-KF5" /\ G5(e, subj)
+    \/ id = "C11-KF6" /\ G6(e, subj)
+    \/ id = "C11-KF7" /\ G7(e, subj)
+    \/ id = "C11-KF8" /\ G8(e, subj)
+    \/ id = "C11-KF9" /\ G9(e, subj)
+KnownDeviation(id, e, subj) ==
+    \/ id = "C11-KF1" /\ KF1(e, subj)
+    \/ id = "C11-KF2" /\ KF2(e, subj)
+    \/ id = "C11-KF3" /\ KF3(e, subj)
+    \/ id = "C11-KF4" /\ KF4(e, subj)
+    \/ id = "C11-KF5" /\ KF5(e, subj)
+    \/ id = "C11-KF6" /\ KF6(e, subj)
+    \/ id = "C11-KF7" /\ KF7(e, subj)
+    \/ id = "C11-KF8" /\ KF8(e, subj)
+    \/ id = "C11-KF9" /\ KF9(e, subj)
 =============================================================================
